@@ -87,4 +87,8 @@ Emit == PrintT(ToJson([h |-> hist, s |-> [s \in 1..K |-> Export(s)]]))
 
 GenValues == {-1, 0, 2}
 GenWeights == {0, 1, 3}
+\* very unequal weights (the property quantifies over w in {0} u [1e-6, 1e6]): chunks whose total
+\* weights differ by more than three orders of magnitude
+GenWeightsWide == {0, 1, 4096}
+GenValuesNarrow == {-1, 2}
 =============================================================================
